@@ -288,21 +288,51 @@ func (this *DatasetManager) processSnapshot(data []byte) error {
 		return err
 	}
 
+	inSnapshot := make(map[uuid.UUID]*pb.Dataset)
 	for _, dataset := range dmSnapshot.Datasets {
 		id, err := uuid.FromBytes(dataset.GetId())
 		if err != nil {
 			return err
 		}
-		if _, exists := this.datasets[id]; !exists {
-			this.datasets[id], err = newDataset(id, *dataset, this.raftWalDB, this.raftTransport, this.clusterConn, this)
-			if err != nil {
-				return err
+		inSnapshot[id] = dataset
+	}
+
+	// The snapshot is the whole catalogue: datasets it does not contain were
+	// deleted before it was taken.
+	for id, dataset := range this.datasets {
+		if _, exists := inSnapshot[id]; !exists {
+			for _, partition := range dataset.partitions {
+				this.allocator.unwatch(partition.id)
 			}
-			for _, partition := range this.datasets[id].partitions {
-				this.allocator.watch(partition)
-			}
+			delete(this.datasets, id)
 		}
 	}
+
+	for id, dataset := range inSnapshot {
+		if existing, exists := this.datasets[id]; exists {
+			// Bring the replica sets of a dataset we already know up to date
+			for _, partitionMeta := range dataset.GetPartitions() {
+				partitionId, err := uuid.FromBytes(partitionMeta.GetId())
+				if err != nil {
+					return err
+				}
+				if partition, err := existing.getPartition(partitionId); err == nil {
+					partition.setNodeIds(partitionMeta.GetNodeIds())
+				}
+			}
+			continue
+		}
+
+		var err error
+		this.datasets[id], err = newDataset(id, *dataset, this.raftWalDB, this.raftTransport, this.clusterConn, this)
+		if err != nil {
+			return err
+		}
+		for _, partition := range this.datasets[id].partitions {
+			this.allocator.watch(partition)
+		}
+	}
+
 	return nil
 }
 
